@@ -266,6 +266,14 @@ def _conditions(tier: str, seed: int) -> typing.List[Cond]:
                         ("float", 64)]:
             out.append(Cond(PROP, "c12.frac", make_frac, {"kind": kind, "width": w, "den": den}, {"n": int},
                             assumptions=["value n/%d, n unbounded" % den], witness={"n": den * 3}, budget=40.0, fmtstub=True))
+    # near-integers: a fractional part far below double precision must still be seen (exact rational test); the symbolic
+    # engine treats float() as a real, so the deciding run for a float-based integrality test is the big concrete witness
+    for den in (2 ** 60, 2 ** 53 + 1):
+        for kind, w, near in [("uint", 8, 1), ("int", 16, -7), ("uint", 64, 2 ** 63), ("int", 33, 2 ** 31), ("float", 64, 3)]:
+            out.append(Cond(PROP, "c12.frac", make_frac, {"kind": kind, "width": w, "den": den}, {"n": int},
+                            assumptions=["value n/%d, n unbounded (witness: %d + 1/%d)" % (den, near, den)],
+                            witness={"n": near * den + 1}, budget=15.0, fmtstub=True))
+    for den in (2, 3, 5, 7, 10):
         for w in (16, 32, 64):
             for sign in (1, -1):
                 out.append(Cond(PROP, "c12.float-edge", make_float_edge, {"width": w, "den": den, "sign": sign},
